@@ -156,12 +156,14 @@ pub fn atom(id: usize, bps: u32, n: usize, ch: usize, block: usize, seed: u64) -
             });
         }
         33 => {
-            // one 64-sample stretch alternating between the extremes inside an otherwise quiet block: the
-            // residual of every fixed predictor is largest there (it needs the largest Rice parameter
-            // the width allows, bps or bps + 1), while the block as a whole still beats verbatim
+            // one 64-sample stretch alternating between the extremes inside an otherwise smooth block (a
+            // slow half-scale sine, for which a predictor of order >= 1 is far better than order 0): the
+            // prediction error of the stretch is wider than the samples and needs a Rice parameter of
+            // bps or bps + 1, while the block as a whole still beats verbatim
             (0..n).for_each(|t| {
                 let loud = (64..128).contains(&t);
-                v.push(if loud { (if t % 2 == 0 { mx } else { mn }) as i32 } else { ((t + block) % 3) as i32 - 1 })
+                let smooth = ((2.0 * std::f64::consts::PI * (t + 17 * block) as f64 / 211.0).sin() * mx as f64 * 0.5).round() as i64;
+                v.push(if loud { (if t % 2 == 0 { mx } else { mn }) as i32 } else { clamp(smooth, bps) })
             });
         }
         _ => panic!("unknown atom {id}"),
